@@ -12,6 +12,7 @@
 # See the License for the specific language governing permissions and
 # limitations under the License.
 
+import bisect
 import copy
 from typing import List, Union
 
@@ -28,6 +29,11 @@ class QCircuitEnhanced(QCircuit):
         self.ancilla_lst = set()
         self.free_ancilla_lst = set()
         self.marked_ancillas = set()
+
+        # for each ancilla, the (first, end) gate index of every period in which it
+        # has been computed and then uncomputed
+        self.ancilla_lives = {}
+        self.ancilla_life_start = {}
 
     def map_qubit(self, name: Union[str, Symbol], index: int, promote=False):
         """Map a name to a qubit
@@ -94,7 +100,20 @@ class QCircuitEnhanced(QCircuit):
         else:
             anc = self.free_ancilla_lst.pop()
 
+        self.ancilla_life_start[anc] = len(self.gates)
         return anc
+
+    def was_released(self, w):
+        """Return True if the qubit was an ancilla already computed and uncomputed"""
+        return w in self.ancilla_lives
+
+    def ancilla_life_of(self, w, i):
+        """Return the life of the released ancilla w containing the i-th gate"""
+        lives = self.ancilla_lives.get(w, [])
+        k = bisect.bisect_right(lives, (i, float("inf"))) - 1
+        if k >= 0 and i < lives[k][1]:
+            return (w, lives[k][0], lives[k][1])
+        return None
 
     def mark_ancilla(self, w):
         """Mark an ancilla for uncomputing"""
@@ -107,19 +126,43 @@ class QCircuitEnhanced(QCircuit):
         scopy = copy.deepcopy(self.gates)
         uncomputed = set()
 
-        for g, qbs, p in reversed(scopy):
-            if (
-                issubclass(g.__class__, gates.NopGate)
-                or qbs[-1] in keep
-                or qbs[-1] in self.free_ancilla_lst
-            ):
+        # 1. The gates over a kept qubit, or over an ancilla already released, are not
+        # replayed; all the others are
+        replay = [False] * len(scopy)
+        life_gates = {}
+        todo = []
+
+        for i, (g, qbs, p) in enumerate(scopy):
+            if issubclass(g.__class__, gates.NopGate):
                 continue
-            uncomputed.add(qbs[-1])
 
-            if qbs[-1] in self.ancilla_lst:
-                self.free_ancilla_lst.add(qbs[-1])
+            if qbs[-1] in keep or qbs[-1] in self.free_ancilla_lst:
+                life = self.ancilla_life_of(qbs[-1], i)
+                if life is not None:
+                    life_gates.setdefault(life, []).append(i)
+            else:
+                replay[i] = True
+                todo.append(i)
 
-            self.append(g, qbs, p)
+        # 2. A gate to replay needs its controls in the state they had: if one of them
+        # was a released ancilla, what computed and uncomputed it is replayed too
+        while len(todo) > 0:
+            i = todo.pop()
+            for c in scopy[i][1][:-1]:
+                for j in life_gates.pop(self.ancilla_life_of(c, i), []):
+                    replay[j] = True
+                    todo.append(j)
+
+        # 3. Replay in reverse order
+        for i in reversed(range(len(scopy))):
+            if replay[i]:
+                g, qbs, p = scopy[i]
+                uncomputed.add(qbs[-1])
+                self.append(g, qbs, p)
+
+        for q in uncomputed:
+            if q in self.ancilla_lst:
+                self.free_ancilla_lst.add(q)
 
         return uncomputed
 
@@ -141,6 +184,10 @@ class QCircuitEnhanced(QCircuit):
                 new_gates_comp.append((g, ws, p))
 
         for x in self.marked_ancillas:
+            if x in uncomputed and x in self.ancilla_life_start:
+                self.ancilla_lives.setdefault(x, []).append(
+                    (self.ancilla_life_start.pop(x), len(self.gates))
+                )
             self.free_ancilla_lst.add(x)
         self.marked_ancillas = self.marked_ancillas - uncomputed
         self.gates_computed = new_gates_comp[::-1]
